@@ -83,7 +83,7 @@ SetToSeq(S) == LET RECURSIVE f(_) f(T) == IF T = {} THEN <<>> ELSE LET x == CHOO
 TypeRec(s, i) ==
     [name |-> TName(i), cpu |-> TCpu(i), mem |-> 100000, pods |-> 110, labels |-> <<>>, ovCpu |-> 0, ovMem |-> 0,
      offerings |-> [j \in DOMAIN OffSeq |-> [zone |-> OffSeq[j][2], ct |-> OffSeq[j][1], price |-> Price(s, i, OffSeq[j][1], OffSeq[j][2]),
-                                             available |-> Usable(s, i, OffSeq[j][1], OffSeq[j][2]), rid |-> "", cpuOv |-> 0, memOv |-> 0]]]
+                                             available |-> Usable(s, i, OffSeq[j][1], OffSeq[j][2]), rid |-> "", cpuOv |-> 0, memOv |-> 0, podsOv |-> 0, ohCpu |-> 0, ohMem |-> 0]]]
 \* the pods: one per removed node, the filler of the remaining node, pods that arrived while the command waited
 CandPods(s) == [i \in DOMAIN s.cands |-> PodRec("p" \o ToString(i), NodeNames(s)[i], s.cands[i].pod, s.cands[i].needOd)]
 RestCap == 4000
